@@ -16,9 +16,14 @@
         than a thousand ordinary calls); B: what BinaryCIFData.deserialize(compress(..).serialize())
         returns, element i projected with the unit 10^A.v[i].p; packed: "ok" when the msgpack round
         trip works and gives the same array, "Rejected" when it raises, "differs" otherwise.
-   kind = "file":     {cin, cout, eq}
-        a BinaryCIFFile with the columns cin (each [name, A, M] with M = <<>> or <<mask array>>)
-        was written and read; cout what came back, eq: read file == written file.
+   kind = "file":     {cin, reps, hist, cout, eq, hist2, cout2, eq2}
+        a BinaryCIFFile with the columns cin (each [name, A, M] with M = <<>> or <<mask array>>; reps[j] = the
+        memory representations of data and mask array of column j) was built, the read accesses hist (each
+        <<j, op>>: op of BcifColumn.ReadOps on column j) were performed, the file was written and read: cout what
+        came back, eq: read file == written file; then the accesses hist2 were performed on the file that was
+        read, it was written again and read: cout2, eq2.
+   Every chain / compress / compressx event has a field rep: the memory representation of the input array
+   (BcifEncoding.Reps); the judgement does not depend on it.
 
    Printed, never stopping:
      <<"MISMATCH", tid, i, "known" | "unknown", kb, expected outcome>>
@@ -28,7 +33,7 @@
      <<"DDIFF", tid, i>>        diagnostic: compress() chose another number of decimals than the model (or some
                                 where the model finds none)
      <<"NOTCAND", tid, i>>      diagnostic: compress() chose a chain outside the twelve candidates *)
-EXTENDS BcifEncoding, Json, IOUtils
+EXTENDS BcifColumn, Json, IOUtils
 
 Tr == JsonDeserialize(IOEnv.TRACE_FILE)
 
@@ -40,6 +45,7 @@ NoNaN(A) == A.t \in FloatTypes => \A i \in DOMAIN A.v : A.v[i].k # "nan"
 JudgeChain(e, i) ==
   LET dom == /\ Dom_Array(e.A) /\ Dom_NoWrap32(e.A) /\ e.chain # <<>> /\ Dom_Enc(e.chain[1], e.A.t)
              /\ Dom_FixedExact(e.chain[1], e.A) /\ Dom_ArithSafe(e.chain, e.A) /\ Dom_Chain(e.chain)
+             /\ e.rep \in RepsOf(e.A) /\ Dom_RepSafe(e.chain, e.A, e.rep)
   IN IF ~dom THEN PrintT(<<"NOTDOM", tid, i>>)
      ELSE LET exp == IdealOutcome(e.chain, e.A)
               le  == LossyOf(e.chain)
@@ -48,12 +54,15 @@ JudgeChain(e, i) ==
                           /\ ((le = <<>> /\ NoNaN(e.A)) => e.data_eq)
                      ELSE e.oc = "Rejected"
           IN IF ok THEN TRUE
-             ELSE LET kb == KB_Data(e.chain, e.A) IN
+             ELSE LET kb == KB_Data(e.chain, e.A)
+                      kbr == KB_Rep(e.chain, e.A, e.rep) IN
                   PrintT(<<"MISMATCH", tid, i,
-                           IF kb # {} /\ exp = "Rejected" /\ e.oc = "ok" THEN "known" ELSE "unknown", kb, exp>>)
+                           IF \/ kb # {} /\ exp = "Rejected" /\ e.oc = "ok"
+                              \/ kbr # {} /\ exp = "ok" /\ e.oc = "ok"
+                           THEN "known" ELSE "unknown", kb \cup kbr, exp>>)
 
 JudgeCompress(e, i) ==
-  IF ~Dom_Array(e.A) THEN PrintT(<<"NOTDOM", tid, i>>)
+  IF ~(Dom_Array(e.A) /\ e.rep \in RepsOf(e.A)) THEN PrintT(<<"NOTDOM", tid, i>>)
   ELSE LET ok == /\ e.oc = "ok" /\ Len(e.B.v) = Len(e.A.v)
                  /\ IF e.A.t \in FloatTypes
                     THEN e.B.t \in FloatTypes /\ \A j \in DOMAIN e.A.v : AcceptRel(e.T, e.A.t, e.A.v[j], e.B.v[j])
@@ -65,7 +74,7 @@ JudgeCompress(e, i) ==
                   PrintT(<<"MISMATCH", tid, i, IF kb # {} /\ e.oc = "ok" THEN "known" ELSE "unknown", kb, "ok">>)
 
 JudgeCompressX(e, i) ==
-  IF ~(Dom_SciArray(e.A) /\ Dom_SciTol(e.A.t, e.T)) THEN PrintT(<<"NOTDOM", tid, i>>)
+  IF ~(Dom_SciArray(e.A) /\ Dom_SciTol(e.A.t, e.T) /\ e.rep \in RepsOf(e.A)) THEN PrintT(<<"NOTDOM", tid, i>>)
   ELSE IF ~Dom_SciDecisive(e.A, e.T) THEN PrintT(<<"OUTDOM", tid, i>>)
   ELSE LET t == e.A.t
            nodec == SciExhausted(e.A, e.T)     \* no decimals reach the tolerance: the array is kept losslessly
@@ -86,7 +95,15 @@ JudgeCompressX(e, i) ==
              ELSE PrintT(<<"MISMATCH", tid, i, IF kb # {} THEN "known" ELSE "unknown", kb, "ok">>)
 
 JudgeFile(e, i) ==
-  IF e.eq /\ e.cout = e.cin THEN TRUE ELSE PrintT(<<"MISMATCH", tid, i, "unknown", {}, "ok">>)
+  LET dom == /\ \A j \in DOMAIN e.cin : /\ Dom_Col(ColOf(e.cin[j])) /\ e.reps[j][1] \in RepsOf(e.cin[j].A)
+                                         /\ (e.cin[j].M # <<>> => e.reps[j][2] \in RepsOf(e.cin[j].M[1]))
+             /\ \A k \in DOMAIN e.hist : e.hist[k][1] \in DOMAIN e.cin /\ e.hist[k][2] \in ReadOps
+             /\ \A k \in DOMAIN e.hist2 : e.hist2[k][1] \in DOMAIN e.cin /\ e.hist2[k][2] \in ReadOps
+      names == [j \in DOMAIN e.cin |-> e.cin[j].name]
+  IN IF ~dom THEN PrintT(<<"NOTDOM", tid, i>>)
+     ELSE IF /\ e.eq /\ SameCols(e.cout, ColsAfter(e.cin, e.hist), names)
+             /\ e.eq2 /\ SameCols(e.cout2, ColsAfter(e.cin, e.hist \o e.hist2), names)
+          THEN TRUE ELSE PrintT(<<"MISMATCH", tid, i, "unknown", {}, "ok">>)
 
 Init == tid \in 1..Len(Tr) /\ l = 0
 Next == /\ l < Len(Tr[tid])
